@@ -79,9 +79,22 @@ def run(ctx):
 
     ctx.rule("C16-R4", "field sections: prefix 00 00; static-indexed / static-name-ref / literal only; pseudo-headers first; request pseudo-header literals")
     shared.qpack_representations(ctx, "C16-R4")
-    f = A.find1(r"^wtransport_proto::headers::Headers::sorted_headers::\{closure#1\}$")
-    sg = [path_sig(p)[1] for p in nonpanic(walk(f))]
-    ctx.check("C16-R4", "sort key (!starts_with(':'), name)", len(sg) == 1 and re.match(r"^return \(Not\(<impl str>::starts_with\(.*,58\)\),", sg[0]) is not None, "Headers::sorted_headers key is not (!name.starts_with(':'), name): %s" % sg, where(f))
+    # the key closure is found through the sort call that receives it (not by its index among the function's closures)
+    g = A.fn("wtransport_proto::headers::Headers::sorted_headers")
+    keys = set()
+    for p in nonpanic(walk(g)):
+        for e in p.events:
+            if e[0] == "call" and re.search(r"<impl \[T\]>::sort(_unstable)?_by_key$|<impl \[T\]>::sort_by_cached_key$", e[1]):
+                k = e[2][1]
+                while isinstance(k, tuple) and k and k[0] in ("ref", "deref"):
+                    k = k[1]
+                if isinstance(k, tuple) and k[0] == "agg" and k[1] == "closure":
+                    keys.add(k[2])
+    ctx.check("C16-R4", "sorted_headers sorts by a key", len(keys) == 1, "Headers::sorted_headers does not sort its fields with exactly one sort_by_key: %s" % sorted(keys), where(g))
+    for kp in sorted(keys):
+        f = A.fn(kp)
+        sg = [path_sig(p)[1] for p in nonpanic(walk(f))]
+        ctx.check("C16-R4", "sort key (!starts_with(':'), name)", len(sg) == 1 and re.match(r"^return \(Not\(<impl str>::starts_with\(.*,58\)\),", sg[0]) is not None, "Headers::sorted_headers key is not (!name.starts_with(':'), name): %s" % sg, where(f))
     f = A.fn("wtransport_proto::headers::Headers::generate_frame")
     sg = [path_sig(p)[1] for p in nonpanic(walk(f))]
     ctx.check("C16-R4", "generate_frame = HEADERS(encode(sorted))", len(sg) == 1 and re.match(r"^return Frame::new_headers\(Cow::Owned\(.*Encoder::encode\(Headers::sorted_headers\(&\*self\)\)", sg[0]) is not None, "Headers::generate_frame changed: %s" % sg, where(f))
